@@ -19,3 +19,5 @@ def run(ctx):
     # commutation with rotation rests on the rotation kernels
     from ..kernels import run_kernels
     run_kernels(ctx, ["K3", "K5"], "C14")
+    from ..rules_ast import record_instance_state_rule
+    ctx.guard(record_instance_state_rule, ctx, "C14.no-derived-state", ["reverse_complement", "__rshift__", "__lshift__"])
